@@ -627,16 +627,21 @@ End Tiers.
 
 (* The checker is sound for expressions: any token stream, any cursor, any
    fuels, any nesting level. *)
-Theorem expression_check_sound : forall f1 f2 n, sound K (evaluate_expression f1 n) (analyze_expression f2 n).
+Theorem expression_check_sound2 : forall f1 f2 n1 n2, sound K (evaluate_expression f1 n1) (analyze_expression f2 n2).
 Proof.
-  induction f1 as [|f1 IH]; intros f2 n.
+  induction f1 as [|f1 IH]; intros f2 n1 n2.
   - intros s sa acc HR. cbn [evaluate_expression].
-    destruct (analyze_expression f2 n (sa, acc)) as [[y|? ?|?| |] [? ?]]; exact I.
+    destruct (analyze_expression f2 n2 (sa, acc)) as [[y|? ?|?| |] [? ?]]; exact I.
   - destruct f2 as [|f2]; [intros s sa acc HR; exact I|].
     cbn [evaluate_expression analyze_expression].
-    destruct (Nat.eqb n max_nesting); [apply sound_afail|].
+    destruct (Nat.eqb n2 max_nesting); [apply sound_afail|].
+    destruct (Nat.eqb n1 max_nesting).
+    { intros s sa acc HR. destruct (an_or f2 (analyze_expression f2 (S n2)) (sa, acc)) as [[y|? ?|?| |] [? ?]]; exact I. }
     apply sound_logical_or. apply IH.
 Qed.
+
+Theorem expression_check_sound : forall f1 f2 n, sound K (evaluate_expression f1 n) (analyze_expression f2 n).
+Proof. intros f1 f2 n. apply expression_check_sound2. Qed.
 
 (* spelled out *)
 Corollary checked_expression_does_not_fail_on_types : forall f1 f2 n s sa acc t sa' acc',
@@ -743,15 +748,15 @@ Definition orel' {A B} (x : option A) (y : option B) : Prop :=
   match x, y with Some _, Some _ => True | None, None => True | _, _ => False end.
 
 Section StmtLock.
-  Variables f1 f2 nest : nat.
+  Variables f1 f2 nest nest2 : nat.
 
   Let expr1 : M value := evaluate_expression f1 nest.
-  Let aexpr2 : MA vtype := analyze_expression f2 nest.
+  Let aexpr2 : MA vtype := analyze_expression f2 nest2.
 
   Lemma sound_expr : sound K expr1 aexpr2.
-  Proof. apply expression_check_sound. Qed.
+  Proof. apply expression_check_sound2. Qed.
 
-  Lemma sound_optional_index : sound orel' (parse_optional_array_index f1 nest) (an_optional_array_index f2 nest).
+  Lemma sound_optional_index : sound orel' (parse_optional_array_index f1 nest) (an_optional_array_index f2 nest2).
   Proof.
     unfold parse_optional_array_index, an_optional_array_index.
     apply (sound_bind eq); [apply sound_cursor, cp_peek_is|]. intros p p' <-.
@@ -763,7 +768,7 @@ Section StmtLock.
 
   (* v = e  /  v(i, j) = e *)
   Lemma sound_assignment sym :
-    sound (fun _ _ => True) (evaluate_assignment_statement f1 nest sym) (an_assignment f2 nest sym).
+    sound (fun _ _ => True) (evaluate_assignment_statement f1 nest sym) (an_assignment f2 nest2 sym).
   Proof.
     unfold evaluate_assignment_statement, an_assignment.
     apply (sound_right (fun _ => True)); [apply aquiet_prev_loc|]. intros l _.
@@ -781,7 +786,7 @@ Section StmtLock.
     destruct H as [HR1 _]. split; [exact I | exact HR1].
   Qed.
 
-  Lemma sound_let : sound (fun _ _ => True) (evaluate_let_statement f1 nest) (an_let f2 nest).
+  Lemma sound_let : sound (fun _ _ => True) (evaluate_let_statement f1 nest) (an_let f2 nest2).
   Proof.
     unfold evaluate_let_statement, an_let.
     apply (sound_bind eq); [apply sound_cursor, cp_next_token|]. intros t t' <-.
@@ -790,7 +795,7 @@ Section StmtLock.
   Qed.
 
   (* PRINT: every item an expression the checker accepted *)
-  Lemma sound_print : sound (fun _ _ => True) (evaluate_print_statement f1 nest) (an_print f2 nest).
+  Lemma sound_print : sound (fun _ _ => True) (evaluate_print_statement f1 nest) (an_print f2 nest2).
   Proof.
     unfold evaluate_print_statement, an_print.
     apply (sound_then_quiet (fun _ _ => True)).
@@ -807,7 +812,7 @@ Section StmtLock.
 
   (* DIM *)
   Lemma sound_parse_lvalue :
-    sound (fun lv alv => lv_sym lv = alv_sym alv) (parse_lvalue f1 nest) (an_parse_lvalue f2 nest).
+    sound (fun lv alv => lv_sym lv = alv_sym alv) (parse_lvalue f1 nest) (an_parse_lvalue f2 nest2).
   Proof.
     unfold parse_lvalue, an_parse_lvalue.
     apply (sound_bind eq); [apply sound_cursor, cp_next_token|]. intros t t' <-.
@@ -832,7 +837,7 @@ Corollary checked_assignment_does_not_fail_on_types : forall f1 f2 nest sym s sa
   stmt_ok (evaluate_assignment_statement f1 nest sym s).
 Proof.
   intros f1 f2 nest sym s sa acc sa' acc' HR Ha.
-  pose proof (sound_assignment f1 f2 nest sym s sa acc HR) as H. rewrite Ha in H. unfold stmt_ok.
+  pose proof (sound_assignment f1 f2 nest nest sym s sa acc HR) as H. rewrite Ha in H. unfold stmt_ok.
   destruct (evaluate_assignment_statement f1 nest sym s) as [[u|e l|pp| |] s']; try exact I; [|exact H].
   destruct H as [_ (_ & Hc & _)]. exact Hc.
 Qed.
@@ -842,7 +847,7 @@ Corollary checked_print_does_not_fail_on_types : forall f1 f2 nest s sa acc sa' 
   stmt_ok (evaluate_print_statement f1 nest s).
 Proof.
   intros f1 f2 nest s sa acc sa' acc' HR Ha.
-  pose proof (sound_print f1 f2 nest s sa acc HR) as H. rewrite Ha in H. unfold stmt_ok.
+  pose proof (sound_print f1 f2 nest nest s sa acc HR) as H. rewrite Ha in H. unfold stmt_ok.
   destruct (evaluate_print_statement f1 nest s) as [[u|e l|pp| |] s']; try exact I; [|exact H].
   destruct H as [_ (_ & Hc & _)]. exact Hc.
 Qed.
@@ -887,19 +892,19 @@ Lemma bind_assoc_m {A B C'} (m : M A) (f : A -> M B) (g : B -> M C') s :
 Proof. unfold bind. destruct (m s) as [[a| | | |] s1]; reflexivity. Qed.
 
 Section StmtLock2.
-  Variables f1 f2 nest : nat.
+  Variables f1 f2 nest nest2 : nat.
 
   Lemma sound_number_expr :
     sound (fun _ _ => True) (fv <- evaluate_expression f1 nest ;; expect_number fv)
-                            (a <-- analyze_expression f2 nest ;; check_number a).
+                            (a <-- analyze_expression f2 nest2 ;; check_number a).
   Proof.
-    apply (sound_bind K); [apply expression_check_sound|]. intros v t Hk. unfold K in Hk.
+    apply (sound_bind K); [apply expression_check_sound2|]. intros v t Hk. unfold K in Hk.
     destruct v as [b|x]; cbn [kind] in Hk; subst t; unfold check_number, check; cbn [vtype_eqb expect_number].
     - apply sound_afail.
     - apply sound_ret. exact I.
   Qed.
 
-  Lemma sound_for : sound (fun _ _ => True) (evaluate_for_statement f1 nest) (an_for f2 nest).
+  Lemma sound_for : sound (fun _ _ => True) (evaluate_for_statement f1 nest) (an_for f2 nest2).
   Proof.
     unfold evaluate_for_statement, an_for.
     apply (sound_bind eq); [apply sound_cursor, cp_next_token|]. intros t t' <-.
@@ -914,19 +919,19 @@ Section StmtLock2.
     assert (Hty : type_of_name sym = TyNumber) by (destruct (type_of_name sym); [discriminate | reflexivity]).
     apply (sound_right (fun _ => True)); [apply aquiet_ret; exact I|]. intros _ _.
     apply (sound_bind eq); [apply sound_cursor, cp_expect|]. intros _ _ _.
-    apply (sound_bind K); [apply expression_check_sound|]. intros v1 t1 Hk1. unfold K in Hk1.
+    apply (sound_bind K); [apply expression_check_sound2|]. intros v1 t1 Hk1. unfold K in Hk1.
     destruct v1 as [b1|x1]; cbn [kind] in Hk1; subst t1; unfold check_number at 1, check at 1; cbn [vtype_eqb expect_number];
       [apply sound_afail_bind|].
     apply (sound_bind (fun _ _ => True)); [apply sound_ret; exact I|]. intros from ? _.
     apply (sound_bind eq); [apply sound_cursor, cp_expect|]. intros _ _ _.
-    apply (sound_bind K); [apply expression_check_sound|]. intros v2 t2 Hk2. unfold K in Hk2.
+    apply (sound_bind K); [apply expression_check_sound2|]. intros v2 t2 Hk2. unfold K in Hk2.
     destruct v2 as [b2|x2]; cbn [kind] in Hk2; subst t2; unfold check_number at 1, check at 1; cbn [vtype_eqb expect_number];
       [apply sound_afail_bind|].
     apply (sound_bind (fun _ _ => True)); [apply sound_ret; exact I|]. intros to ? _.
     apply (sound_bind eq); [apply sound_cursor, cp_accept|]. intros st st' <-.
     destruct st.
     - eapply sound_ext_l; [intros s0; apply bind_assoc_m|].
-      apply (sound_bind K); [apply expression_check_sound|]. intros v3 t3 Hk3. unfold K in Hk3.
+      apply (sound_bind K); [apply expression_check_sound2|]. intros v3 t3 Hk3. unfold K in Hk3.
       destruct v3 as [b3|x3]; cbn [kind] in Hk3; subst t3; unfold check_number, check; cbn [vtype_eqb expect_number];
         [apply sound_afail_bind|].
       apply (sound_bind (fun _ _ => True)); [apply sound_ret; exact I|]. intros step ? _.
@@ -934,7 +939,7 @@ Section StmtLock2.
     - apply (sound_left (fun _ => True)); [apply equiet_ret; exact I|]. intros step _.
       apply (sound_quiet (fun _ => True) (fun _ => True)); [apply equiet_start_loop; exact Hty | apply aquiet_ret; exact I | intros; exact I].
   Qed.
-  Lemma sound_dim : sound (fun _ _ => True) (evaluate_dim_statement f1 nest) (an_dim f2 nest).
+  Lemma sound_dim : sound (fun _ _ => True) (evaluate_dim_statement f1 nest) (an_dim f2 nest2).
   Proof.
     unfold evaluate_dim_statement, an_dim.
     apply (sound_bind (fun lv alv => lv_sym lv = alv_sym alv)); [apply sound_parse_lvalue|]. intros lv alv _.
@@ -971,7 +976,7 @@ Section StmtLock2.
     destruct (type_of_name (alv_sym alv)); cbn; split; [reflexivity | exact I | reflexivity | exact I].
   Qed.
 
-  Lemma sound_read : sound (fun _ _ => True) (evaluate_read_statement f1 nest) (an_read f2 nest).
+  Lemma sound_read : sound (fun _ _ => True) (evaluate_read_statement f1 nest) (an_read f2 nest2).
   Proof.
     unfold evaluate_read_statement, an_read.
     apply (sound_repeat (fun _ _ => True)); [|exact I]. intros [] [] _.
@@ -1074,12 +1079,17 @@ Definition straight_head (t : option token) : bool :=
 (* whichever of  v = e, LET, PRINT, ?, DIM, FOR, READ, RESTORE, REM, DATA, ":"
    the dispatchers have just seen: accepted by the checker => executed without
    a syntax error or a type mismatch, the two cursors together again behind it *)
-Theorem straight_statement_sound : forall f1 f2 nest rec arec t, straight_head t = true ->
-  sound (fun _ _ => True) (edispatch f1 nest rec t) (adispatch f2 nest arec t).
+Theorem straight_statement_sound2 : forall f1 f2 nest nest2 rec arec t, straight_head t = true ->
+  sound (fun _ _ => True) (edispatch f1 nest rec t) (adispatch f2 nest2 arec t).
 Proof.
-  intros f1 f2 nest rec arec t Hst.
+  intros f1 f2 nest nest2 rec arec t Hst.
   destruct t as [t|]; [|apply sound_ret; exact I].
   destruct t; try discriminate Hst; cbn [edispatch adispatch]; try (apply sound_ret; exact I);
     try apply sound_print; try apply sound_let; try apply sound_dim; try apply sound_for; try apply sound_read;
     try apply sound_assignment.
 Qed.
+
+Theorem straight_statement_sound : forall f1 f2 nest rec arec t, straight_head t = true ->
+  sound (fun _ _ => True) (edispatch f1 nest rec t) (adispatch f2 nest arec t).
+Proof. intros f1 f2 nest. apply straight_statement_sound2. Qed.
+
